@@ -124,6 +124,23 @@ def scenario(draw, tier="quick"):
             if draw(st.booleans()):
                 res[r] = "PLACED"
     steps.append({"dt": 500, "k": "close", "results": res})
+    # re-settlement: an amended result sent while the market is closed (another runner promoted: a dead heat), or the
+    # market re-opened, traded further and closed again with the same result - the last closing book is what counts
+    ext = draw(st.sampled_from(["none", "none", "none", "amend", "reopen"]))
+    if ext == "amend" and kind in ("WIN", "DEADHEAT", "PLACE", "EACH_WAY", "MATCH_ODDS"):
+        res2 = list(res)
+        losers = [r for r in active if res2[r] != "WINNER"]
+        if losers:
+            res2[losers[draw(st.integers(0, len(losers) - 1))]] = "WINNER"
+            steps.append({"dt": 1000, "k": "close", "results": res2})
+    elif ext == "reopen":
+        steps.append({"dt": 1000, "k": "reopen"})
+        for _ in range(draw(st.integers(1, 3))):
+            r = draw(st.integers(0, nr - 1))
+            steps.append({"dt": 500, "k": "book", "rc": [{"r": r, "trd": [[max(0, min(nt - 1, mids[r] + draw(st.integers(-4, 4)))),
+                                                                          gen.size_c(draw, 2, 20000) / 100]]}]})
+        steps.append({"dt": 500, "k": "suspend", "bump": True})
+        steps.append({"dt": 500, "k": "close", "results": res})
     spec["steps"] = steps
     clients = [{"min_bet_validation": False, "commission": draw(st.sampled_from([0, 0.02, 0.05, 0.1]))} for _ in range(n_clients)]
     return {"markets": [spec], "strategies": strategies, "clients": clients, "config": {}, "_kind": kind}
@@ -212,9 +229,13 @@ def _evaluate(sc, lb):
             pc[1] += F(str(profit))
     # ---- cleared summaries
     cleared = [e for e in lb.events if type(e).__name__ == "ClearedMarketsEvent"]
-    if len(cleared) != len(lb.clients):
-        raise Violation("cleared-market-count", (), "%d cleared-market summaries for %d clients" % (len(cleared), len(lb.clients)), sc)
-    for client, ev in zip(lb.clients, cleared):
+    n_closes = sum(1 for u in lb.renderers[0].updates if u.status == "CLOSED")
+    if n_closes > 1:
+        classes.add("re-settled")
+        nontrivial = True
+    if len(cleared) != len(lb.clients) * n_closes:
+        raise Violation("cleared-market-count", (), "%d cleared-market summaries for %d clients and %d closing updates" % (len(cleared), len(lb.clients), n_closes), sc)
+    for client, ev in zip(lb.clients, cleared[-len(lb.clients):]):  # the summaries of the last closing update
         cm = ev.event.orders[0]
         cnt, tot, _ = per_client.get(client.username, [0, F(0), 0.0])
         exp_profit = round(float(tot), 2)
